@@ -3,7 +3,7 @@
 
 use std::collections::BTreeMap;
 use std::sync::atomic::{AtomicBool, AtomicI64, AtomicU64, Ordering};
-use std::sync::mpsc::{channel, Receiver, RecvTimeoutError, TryRecvError};
+use std::sync::mpsc::{channel, Receiver, RecvTimeoutError, Sender, TryRecvError};
 use std::sync::{Arc, Barrier};
 use std::thread::JoinHandle;
 use std::time::Duration;
@@ -165,6 +165,21 @@ impl Drop for ClearSender {
     }
 }
 
+/// Thread id of the pseudo stop the cycle thread sends at a cycle boundary (lock-step only).
+const BOUNDARY_THREAD: u32 = u32::MAX;
+
+fn boundary_of(s: &DebugStop) -> Option<usize> {
+    if s.thread_id == Some(BOUNDARY_THREAD) && s.location.is_none() {
+        s.breakpoint_generation.map(|k| k as usize)
+    } else {
+        None
+    }
+}
+
+/// `cycle_gate` (lock-step): after every cycle but the last the cycle thread reports the
+/// boundary through the stop channel and waits for the controller's go, so that commands
+/// can be issued to a *running* debugger at a known point of the trace. A dropped go-sender
+/// opens the gate for good.
 fn spawn_cycle_thread(
     mut real: Real,
     decl: Arc<Program>,
@@ -172,6 +187,7 @@ fn spawn_cycle_thread(
     control: DebugControl,
     gate: Arc<Barrier>,
     shared: Arc<Shared>,
+    cycle_gate: Option<(Sender<DebugStop>, Receiver<()>)>,
 ) -> std::io::Result<JoinHandle<CycleOut>> {
     std::thread::Builder::new()
         .name("c17-cycle".into())
@@ -200,7 +216,18 @@ fn spawn_cycle_thread(
                     let r = real.harness.cycle();
                     out.errors.push(format!("{:?}", r.errors));
                     out.states.push(snapshot(&real.harness, &decl));
-                    progress.cycles.fetch_add(1, Ordering::SeqCst);
+                    let done = progress.cycles.fetch_add(1, Ordering::SeqCst) as usize;
+                    if let Some((tx, go)) = &cycle_gate {
+                        if done + 1 < inputs.len() {
+                            let _ = tx.send(DebugStop {
+                                reason: DebugStopReason::Entry,
+                                location: None,
+                                thread_id: Some(BOUNDARY_THREAD),
+                                breakpoint_generation: Some(done as u64),
+                            });
+                            let _ = go.recv();
+                        }
+                    }
                 }
                 out.frames = real.frames_left();
             });
@@ -218,7 +245,9 @@ fn location_of(w: &World, stmt: u32) -> Option<SourceLocation> {
 }
 
 pub fn resolve_bp(w: &World, b: &BpSel) -> Option<u32> {
-    let list = if b.executed && !w.executed.is_empty() {
+    let list = if b.deep && !w.executed_deep.is_empty() {
+        &w.executed_deep
+    } else if b.executed && !w.executed.is_empty() {
         &w.executed
     } else {
         &w.all_stmts
@@ -289,17 +318,26 @@ struct DepthBound {
     limit: u32,
     what: &'static str,
     origin: u32,
+    origin_reason: DebugStopReason,
 }
 
 /// One hypothesis about where the run is: the position of the last stop and what must
 /// happen next. There is exactly one hypothesis until a stop had to be mapped without a
-/// prediction (`Expect::Generic`): a location can occur several times in the trace (loops,
-/// cycles, a FUNCTION called from several places), and every occurrence is kept until a
-/// later stop rules it out.
+/// prediction: a location can occur several times in the trace (loops, cycles, a FUNCTION
+/// called from several places), and every occurrence is kept until a later stop rules it out.
 #[derive(Clone, Debug)]
 struct Hyp {
+    #[allow(dead_code)]
     last: Option<usize>,
-    expect: Expect,
+    /// The candidate stop that is not a breakpoint stop: step, pause or entry.
+    other: Option<(usize, DebugStopReason)>,
+    /// Not predicted.
+    generic: bool,
+    /// The next stop cannot lie before this position (positions before it were executed).
+    floor: usize,
+    /// A pause request is pending (the debugger is in mode Paused while the thread runs):
+    /// further pause requests are ignored by the debugger.
+    pause_pending: bool,
     bound: Option<DepthBound>,
 }
 
@@ -308,7 +346,10 @@ pub struct Model<'w> {
     hyps: Vec<Hyp>,
     /// Possible positions of the current stop (between `observe` and `resume`).
     at: Vec<usize>,
+    at_reason: DebugStopReason,
     bps: Vec<(u32, u32)>,
+    /// Depth of each thread's last step / breakpoint stop (evidence labels only).
+    deep_stop: BTreeMap<u32, u32>,
     pub log: Vec<String>,
     pub steps_at_depth: u32,
     pub cross_thread_steps: u32,
@@ -316,6 +357,13 @@ pub struct Model<'w> {
     /// Step-in commands whose predicted stop is not the very next trace position because the
     /// statements in between belong to other threads (tasks).
     pub step_in_passes_other_threads: u32,
+    /// Steps issued from a pause / entry stop: any step, step-over/out, and the shape
+    /// "the thread's previous step/breakpoint stop was deeper and the pause landed on a
+    /// statement that enters a call".
+    pub pause_origin_steps: u32,
+    pub pause_origin_over_out: u32,
+    pub pause_origin_shape: u32,
+    pub boundary_pauses: u32,
     pub reasons: BTreeMap<&'static str, u32>,
     pub commands: BTreeMap<&'static str, u32>,
 }
@@ -345,16 +393,25 @@ impl<'w> Model<'w> {
             w,
             hyps: vec![Hyp {
                 last: None,
-                expect: Expect::Exact(None),
+                other: None,
+                generic: false,
+                floor: 0,
+                pause_pending: false,
                 bound: None,
             }],
             at: Vec::new(),
+            at_reason: DebugStopReason::Step,
             bps: Vec::new(),
+            deep_stop: BTreeMap::new(),
             log: Vec::new(),
             steps_at_depth: 0,
             cross_thread_steps: 0,
             ambiguous_stops: 0,
             step_in_passes_other_threads: 0,
+            pause_origin_steps: 0,
+            pause_origin_over_out: 0,
+            pause_origin_shape: 0,
+            boundary_pauses: 0,
             reasons: BTreeMap::new(),
             commands: BTreeMap::new(),
         }
@@ -368,14 +425,35 @@ impl<'w> Model<'w> {
         format!("[{}]", v.join(", "))
     }
 
-    /// Commands issued before the cycle thread starts.
-    pub fn start(&mut self, bps: Vec<(u32, u32)>, pause: Option<Option<u32>>, early_step: bool) {
+    fn expect_of(&self, h: &Hyp) -> Expect {
+        if h.generic {
+            return Expect::Generic;
+        }
+        Expect::Exact(earliest(&[
+            (h.other.map(|o| o.0), h.other.map(|o| o.1).unwrap_or(DebugStopReason::Step)),
+            (
+                self.w.first_bp(h.floor, &self.bps),
+                DebugStopReason::Breakpoint,
+            ),
+        ]))
+    }
+
+    /// Commands issued before the cycle thread starts: breakpoints, then `pause(thread)` or
+    /// `pause_entry()`, then possibly a step command (which cancels the pause).
+    pub fn start(
+        &mut self,
+        bps: Vec<(u32, u32)>,
+        pause: Option<Option<u32>>,
+        entry: bool,
+        early_step: bool,
+    ) {
         self.log.push(format!(
             "before start: breakpoints {}{}{}",
             self.lines_of(&bps),
-            match pause {
-                Some(t) => format!(", pause({t:?})"),
-                None => String::new(),
+            match (entry, pause) {
+                (true, _) => ", pause_entry()".to_string(),
+                (false, Some(t)) => format!(", pause({t:?})"),
+                (false, None) => String::new(),
             },
             if early_step {
                 ", then a step command while running"
@@ -384,25 +462,27 @@ impl<'w> Model<'w> {
             }
         ));
         self.bps = bps;
-        let bp = self.w.first_bp(0, &self.bps);
-        let expect = if early_step {
-            Expect::Generic
+        let first = if self.w.pos.is_empty() { None } else { Some(0) };
+        let other = if early_step {
+            None
+        } else if entry {
+            first.map(|q| (q, DebugStopReason::Entry))
         } else {
             match pause {
-                None => Expect::Exact(earliest(&[(bp, DebugStopReason::Breakpoint)])),
-                Some(None) => {
-                    let first = if self.w.pos.is_empty() { None } else { Some(0) };
-                    Expect::Exact(earliest(&[(first, DebugStopReason::Pause)]))
-                }
-                Some(Some(t)) => Expect::Exact(earliest(&[
-                    (self.w.first_of_thread(0, t, None), DebugStopReason::Pause),
-                    (bp, DebugStopReason::Breakpoint),
-                ])),
+                None => None,
+                Some(None) => first.map(|q| (q, DebugStopReason::Pause)),
+                Some(Some(t)) => self
+                    .w
+                    .first_of_thread(0, t, None)
+                    .map(|q| (q, DebugStopReason::Pause)),
             }
         };
         self.hyps = vec![Hyp {
             last: None,
-            expect,
+            other,
+            generic: early_step,
+            floor: 0,
+            pause_pending: !early_step && (entry || pause.is_some()),
             bound: None,
         }];
     }
@@ -411,10 +491,10 @@ impl<'w> Model<'w> {
     /// hypothesis and it predicts (`Some(None)`: the run completes).
     pub fn expected_position(&self) -> Option<Option<usize>> {
         match self.hyps.as_slice() {
-            [Hyp {
-                expect: Expect::Exact(e),
-                ..
-            }] => Some(e.as_ref().map(|(q, _)| *q)),
+            [h] => match self.expect_of(h) {
+                Expect::Exact(e) => Some(e.map(|(q, _)| q)),
+                Expect::Generic => None,
+            },
             _ => None,
         }
     }
@@ -437,10 +517,10 @@ impl<'w> Model<'w> {
         let mut at: Vec<usize> = Vec::new();
         let mut complaint: Option<String> = None;
         for h in &self.hyps {
-            let from = h.last.map(|l| l + 1).unwrap_or(0);
+            let from = h.floor;
             let mut found: Vec<usize> = Vec::new();
             let mut why: Option<String> = None;
-            match &h.expect {
+            match self.expect_of(h) {
                 Expect::Exact(None) => {
                     why = Some(format!(
                         "unexpected stop ({:?}) at {}: no breakpoint lies ahead and no pause or step is pending, the run should complete",
@@ -449,7 +529,7 @@ impl<'w> Model<'w> {
                     ));
                 }
                 Expect::Exact(Some((q, reasons))) => {
-                    if !fits(*q) {
+                    if !fits(q) {
                         let got = (from..w.pos.len()).find(|k| fits(*k));
                         why = Some(format!(
                             "stop ({:?}) at {} [{}], expected at {}",
@@ -465,17 +545,31 @@ impl<'w> Model<'w> {
                                     }
                                 ),
                             },
-                            w.describe(*q)
+                            w.describe(q)
                         ));
+                        // the depth clause of the property, stated on its own
+                        if let (Some(b), Some(k)) = (h.bound, got) {
+                            if s.reason != DebugStopReason::Breakpoint && w.pos[k].depth > b.limit {
+                                why = Some(format!(
+                                    "{} issued from a {:?} stop at call depth {} stopped at call depth {} ({}); expected the stop at {}",
+                                    b.what,
+                                    b.origin_reason,
+                                    b.origin,
+                                    w.pos[k].depth,
+                                    w.describe(k),
+                                    w.describe(q)
+                                ));
+                            }
+                        }
                     } else if !reasons.contains(&s.reason) {
                         why = Some(format!(
                             "stop at {} has reason {:?}, expected one of {:?}",
-                            w.describe(*q),
+                            w.describe(q),
                             s.reason,
                             reasons
                         ));
                     } else {
-                        found.push(*q);
+                        found.push(q);
                     }
                 }
                 Expect::Generic => {
@@ -493,13 +587,13 @@ impl<'w> Model<'w> {
                     }
                 }
             }
-            // the depth clause of the property, stated on its own
             if let Some(b) = h.bound {
                 if s.reason != DebugStopReason::Breakpoint {
                     if let Some(k) = found.iter().find(|k| w.pos[**k].depth > b.limit) {
                         why = Some(format!(
-                            "{} issued at call depth {} stopped at call depth {} ({})",
+                            "{} issued from a {:?} stop at call depth {} stopped at call depth {} ({})",
                             b.what,
+                            b.origin_reason,
                             b.origin,
                             w.pos[*k].depth,
                             w.describe(*k)
@@ -536,6 +630,7 @@ impl<'w> Model<'w> {
             s.thread
         ));
         self.at = at;
+        self.at_reason = s.reason;
         self.hyps.clear();
         Ok(self.at[0])
     }
@@ -546,6 +641,7 @@ impl<'w> Model<'w> {
             return None;
         }
         self.at = vec![q];
+        self.at_reason = DebugStopReason::Step;
         self.hyps.clear();
         Some(q)
     }
@@ -565,47 +661,70 @@ impl<'w> Model<'w> {
         let w = self.w;
         *self.commands.entry(cmd.name()).or_default() += 1;
         self.log.push(format!("  {}({:?})", cmd.name(), thread));
+        let origin_reason = self.at_reason;
+        let from_pause = matches!(
+            origin_reason,
+            DebugStopReason::Pause | DebugStopReason::Entry
+        );
         let mut hyps = Vec::new();
         for (i, p) in self.at.iter().copied().enumerate() {
             let here = &w.pos[p];
             // the thread the debugger steps: the named one, else its current thread (= the
             // thread of the statement it is stopped at)
             let tt = thread.or(stop_thread).unwrap_or(here.thread);
-            let bp = (w.first_bp(p + 1, &self.bps), DebugStopReason::Breakpoint);
             let mut bound = None;
-            if i == 0 && !matches!(cmd, Resume::Continue) {
-                if here.depth >= 1 {
-                    self.steps_at_depth += 1;
+            if i == 0 {
+                if !matches!(cmd, Resume::Continue) {
+                    if here.depth >= 1 {
+                        self.steps_at_depth += 1;
+                    }
+                    if tt != here.thread {
+                        self.cross_thread_steps += 1;
+                    }
+                    if from_pause {
+                        self.pause_origin_steps += 1;
+                        if tt == here.thread
+                            && matches!(cmd, Resume::StepOver(_) | Resume::StepOut(_))
+                        {
+                            self.pause_origin_over_out += 1;
+                            let deeper_before = self
+                                .deep_stop
+                                .get(&here.thread)
+                                .map(|d| *d > here.depth)
+                                .unwrap_or(false);
+                            if deeper_before && w.enters_call(p) {
+                                self.pause_origin_shape += 1;
+                            }
+                        }
+                    }
                 }
-                if tt != here.thread {
-                    self.cross_thread_steps += 1;
+                if !from_pause {
+                    self.deep_stop.insert(here.thread, here.depth);
                 }
             }
-            let expect = match cmd {
-                Resume::Continue => Expect::Exact(earliest(&[bp])),
+            let mut generic = false;
+            let other = match cmd {
+                Resume::Continue => None,
                 Resume::StepIn(_) => {
+                    let q = w.first_of_thread(p + 1, tt, None);
                     let e = earliest(&[
-                        (w.first_of_thread(p + 1, tt, None), DebugStopReason::Step),
-                        bp,
+                        (q, DebugStopReason::Step),
+                        (w.first_bp(p + 1, &self.bps), DebugStopReason::Breakpoint),
                     ]);
                     if i == 0 && p + 1 < w.pos.len() && e.as_ref().map(|(q, _)| *q) != Some(p + 1) {
                         self.step_in_passes_other_threads += 1;
                     }
-                    Expect::Exact(e)
+                    q.map(|q| (q, DebugStopReason::Step))
                 }
                 Resume::StepOver(_) if tt == here.thread => {
                     bound = Some(DepthBound {
                         limit: here.depth,
                         what: "step-over",
                         origin: here.depth,
+                        origin_reason,
                     });
-                    Expect::Exact(earliest(&[
-                        (
-                            w.first_of_thread(p + 1, tt, Some(here.depth)),
-                            DebugStopReason::Step,
-                        ),
-                        bp,
-                    ]))
+                    w.first_of_thread(p + 1, tt, Some(here.depth))
+                        .map(|q| (q, DebugStopReason::Step))
                 }
                 Resume::StepOut(_) if tt == here.thread => {
                     let limit = here.depth.saturating_sub(1);
@@ -613,27 +732,121 @@ impl<'w> Model<'w> {
                         limit,
                         what: "step-out",
                         origin: here.depth,
+                        origin_reason,
                     });
-                    Expect::Exact(earliest(&[
-                        (
-                            w.first_of_thread(p + 1, tt, Some(limit)),
-                            DebugStopReason::Step,
-                        ),
-                        bp,
-                    ]))
+                    w.first_of_thread(p + 1, tt, Some(limit))
+                        .map(|q| (q, DebugStopReason::Step))
                 }
                 // step-over / step-out naming another thread: "the depth they were issued
                 // from" is not defined by the property
-                _ => Expect::Generic,
+                _ => {
+                    generic = true;
+                    None
+                }
             };
             hyps.push(Hyp {
                 last: Some(p),
-                expect,
+                other,
+                generic,
+                floor: p + 1,
+                pause_pending: false,
                 bound,
             });
         }
         self.hyps = hyps;
         self.at.clear();
+    }
+
+    /// Cycle `k` (0-based) has completed without a stop since the last resume: every
+    /// hypothesis that expected a stop inside it is refuted. The cycle thread waits.
+    pub fn boundary(&mut self, k: usize) -> Result<(), String> {
+        let f = self.w.first_of_cycle(k + 1);
+        let mut complaint = None;
+        let mut keep = Vec::new();
+        for h in &self.hyps {
+            match self.expect_of(h) {
+                Expect::Exact(Some((q, reasons))) if q < f => {
+                    if complaint.is_none() {
+                        complaint = Some(format!(
+                            "cycle {} completed without the stop ({:?}) expected at {}",
+                            k + 1,
+                            reasons,
+                            self.w.describe(q)
+                        ));
+                    }
+                }
+                _ => {
+                    let mut h = h.clone();
+                    h.floor = h.floor.max(f);
+                    keep.push(h);
+                }
+            }
+        }
+        if keep.is_empty() && !self.hyps.is_empty() {
+            return Err(complaint.unwrap_or_else(|| "no hypothesis left at the cycle boundary".into()));
+        }
+        self.hyps = keep;
+        Ok(())
+    }
+
+    /// `pause(thread)` / `pause_entry()` issued at the boundary before cycle `next` while the
+    /// thread runs: the stop comes at the first statement of (that thread in) the coming
+    /// cycles, unless a breakpoint stops another thread first. A pending step is cancelled.
+    pub fn boundary_pause(&mut self, next: usize, thread: Option<u32>, entry: bool) {
+        let f = self.w.first_of_cycle(next);
+        let reason = if entry {
+            DebugStopReason::Entry
+        } else {
+            DebugStopReason::Pause
+        };
+        self.log.push(if entry {
+            format!("  between cycle {} and {}: pause_entry()", next, next + 1)
+        } else {
+            format!("  between cycle {} and {}: pause({thread:?})", next, next + 1)
+        });
+        self.boundary_pauses += 1;
+        let w = self.w;
+        for h in &mut self.hyps {
+            if h.pause_pending {
+                continue; // the debugger ignores a pause request while one is pending
+            }
+            h.generic = false;
+            h.bound = None;
+            h.pause_pending = true;
+            h.other = match thread {
+                None => (f < w.pos.len()).then_some(f),
+                Some(t) => w.first_of_thread(f, t, None),
+            }
+            .map(|q| (q, reason));
+        }
+    }
+
+    /// `continue` at a boundary: cancels a pending pause or step.
+    pub fn boundary_continue(&mut self, next: usize) {
+        self.log
+            .push(format!("  between cycle {} and {}: continue", next, next + 1));
+        for h in &mut self.hyps {
+            h.generic = false;
+            h.bound = None;
+            h.pause_pending = false;
+            h.other = None;
+        }
+    }
+
+    /// A step command at a boundary (while running): not predicted.
+    pub fn boundary_step(&mut self, next: usize, cmd: Resume, thread: Option<u32>) {
+        self.log.push(format!(
+            "  between cycle {} and {}: {}({thread:?}) while running",
+            next,
+            next + 1,
+            cmd.name()
+        ));
+        for h in &mut self.hyps {
+            h.generic = true;
+            h.bound = None;
+            h.pause_pending = false;
+            h.other = None;
+        }
     }
 
     /// Final "clear breakpoints + continue".
@@ -646,7 +859,10 @@ impl<'w> Model<'w> {
             .iter()
             .map(|p| Hyp {
                 last: Some(*p),
-                expect: Expect::Exact(None),
+                other: None,
+                generic: false,
+                floor: *p + 1,
+                pause_pending: false,
                 bound: None,
             })
             .collect();
@@ -657,13 +873,13 @@ impl<'w> Model<'w> {
     pub fn completed(&self) -> Result<(), String> {
         let mut complaint = None;
         for h in &self.hyps {
-            match &h.expect {
+            match self.expect_of(h) {
                 Expect::Exact(Some((q, reasons))) => {
                     if complaint.is_none() {
                         complaint = Some(format!(
                             "the run completed without the stop ({:?}) expected at {}",
                             reasons,
-                            self.w.describe(*q)
+                            self.w.describe(q)
                         ));
                     }
                 }
@@ -796,6 +1012,8 @@ pub struct UserWrite {
 pub struct ResolvedLock {
     pub bps: Vec<u32>,
     pub reaction_bps: Vec<Vec<u32>>,
+    /// Per boundary, per command (non-empty only for SetBps).
+    pub between_bps: Vec<Vec<Vec<u32>>>,
 }
 
 pub fn resolve_lock(w: &World, script: &LockScript) -> ResolvedLock {
@@ -807,6 +1025,18 @@ pub fn resolve_lock(w: &World, script: &LockScript) -> ResolvedLock {
             .map(|r| match &r.bps {
                 BpEdit::Set(sels) => resolve_bps(w, sels),
                 _ => Vec::new(),
+            })
+            .collect(),
+        between_bps: script
+            .between
+            .iter()
+            .map(|cmds| {
+                cmds.iter()
+                    .map(|c| match c {
+                        BoundaryCmd::SetBps(sels) => resolve_bps(w, sels),
+                        _ => Vec::new(),
+                    })
+                    .collect()
             })
             .collect(),
     }
@@ -834,21 +1064,28 @@ pub fn run_lockstep(
     let control = real.harness.runtime_mut().enable_debug();
     let _ = real.harness.runtime_mut().ensure_background_thread_id();
     let (tx, rx) = channel();
-    control.set_stop_sender(tx);
+    control.set_stop_sender(tx.clone());
+    let (go_tx, go_rx) = channel::<()>();
+    let mut go_tx = Some(go_tx);
 
     let mut model = Model::new(w);
     // ---- before the start
     let bps = set_bps(&control, w, &resolved.bps);
-    let pause = script.pause.map(|sel| {
-        let t = resolve_sel(w, sel, None);
-        let _ = control.apply_action(ControlAction::Pause(t));
-        t
-    });
+    let pause = if script.entry {
+        control.pause_entry();
+        None
+    } else {
+        script.pause.map(|sel| {
+            let t = resolve_sel(w, sel, None);
+            let _ = control.apply_action(ControlAction::Pause(t));
+            t
+        })
+    };
     if let Some(r) = script.early_step {
         let t = r.sel().and_then(|s| resolve_sel(w, s, None));
         let _ = control.apply_action(action_of(r, t));
     }
-    model.start(bps, pause, script.early_step.is_some());
+    model.start(bps, pause, script.entry, script.early_step.is_some());
 
     let gate = Arc::new(Barrier::new(2));
     let shared = Shared::new();
@@ -859,6 +1096,7 @@ pub fn run_lockstep(
         control.clone(),
         gate.clone(),
         shared.clone(),
+        Some((tx, go_rx)),
     ) {
         Ok(h) => h,
         Err(e) => return Ok(Outcome::Internal(format!("cannot spawn the cycle thread: {e}"))),
@@ -872,6 +1110,52 @@ pub fn run_lockstep(
     let mut verdict: Result<Option<String>, String> = Ok(None); // Ok(Some(wedge text))
     loop {
         match await_event(&rx, &control, &shared) {
+            Event::Stop(stop) if boundary_of(&stop).is_some() => {
+                // cycle k is complete, the cycle thread waits for the go
+                let k = boundary_of(&stop).unwrap_or(0);
+                if finalised {
+                    continue; // the gate is open
+                }
+                if let Err(e) = model.boundary(k) {
+                    verdict = Err(e);
+                    break;
+                }
+                if let Some(cmds) = script.between.get(k) {
+                    for (ci, c) in cmds.iter().enumerate() {
+                        match c {
+                            BoundaryCmd::Pause(sel) => {
+                                let t = resolve_sel(w, *sel, None);
+                                model.boundary_pause(k + 1, t, false);
+                                let _ = control.apply_action(ControlAction::Pause(t));
+                            }
+                            BoundaryCmd::Entry => {
+                                model.boundary_pause(k + 1, None, true);
+                                control.pause_entry();
+                            }
+                            BoundaryCmd::SetBps(_) => {
+                                let b = set_bps(&control, w, &resolved.between_bps[k][ci]);
+                                model.set_breakpoints(b);
+                            }
+                            BoundaryCmd::ClearBps => {
+                                control.clear_breakpoints();
+                                model.set_breakpoints(Vec::new());
+                            }
+                            BoundaryCmd::Continue => {
+                                model.boundary_continue(k + 1);
+                                let _ = control.apply_action(ControlAction::Continue);
+                            }
+                            BoundaryCmd::Step(r) => {
+                                let t = r.sel().and_then(|s| resolve_sel(w, s, None));
+                                model.boundary_step(k + 1, *r, t);
+                                let _ = control.apply_action(action_of(*r, t));
+                            }
+                        }
+                    }
+                }
+                if let Some(go) = &go_tx {
+                    let _ = go.send(());
+                }
+            }
             Event::Stop(stop) => {
                 nstops += 1;
                 let rec = StopRec::of(&stop);
@@ -935,15 +1219,20 @@ pub fn run_lockstep(
                             ));
                         }
                     }
-                    let t = r.resume.sel().and_then(|s| resolve_sel(w, s, rec.thread));
-                    model.resume(r.resume, t, rec.thread);
-                    let _ = control.apply_action(action_of(r.resume, t));
+                    let resume = r.resume_for(matches!(
+                        rec.reason,
+                        DebugStopReason::Pause | DebugStopReason::Entry
+                    ));
+                    let t = resume.sel().and_then(|s| resolve_sel(w, s, rec.thread));
+                    model.resume(resume, t, rec.thread);
+                    let _ = control.apply_action(action_of(resume, t));
                     next += 1;
                 } else {
                     control.clear_breakpoints();
                     model.finalise();
                     let _ = control.apply_action(ControlAction::Continue);
                     finalised = true;
+                    go_tx = None; // no more commands between cycles: open the gate
                 }
             }
             Event::Completed => {
@@ -962,6 +1251,7 @@ pub fn run_lockstep(
         }
     }
     let _ = finalised;
+    drop(go_tx.take()); // whatever the verdict: the cycle thread must not wait at a boundary
     let _ = control.drain_stops();
     let trail = |model: &Model| -> String {
         let n = model.log.len();
@@ -1035,9 +1325,24 @@ pub fn run_lockstep(
             if writes_issued > 0 {
                 labels.push("lock:user_write".into());
             }
+            if model.boundary_pauses > 0 {
+                labels.push("lock:pause_between_cycles".into());
+            }
+            if model.pause_origin_steps > 0 {
+                labels.push("lock:step_from_pause_stop".into());
+            }
+            if model.pause_origin_over_out > 0 {
+                labels.push("lock:step_over_or_out_from_pause_stop".into());
+            }
+            if model.pause_origin_shape > 0 {
+                labels.push(
+                    "lock:shape:deeper_stop_then_pause_on_a_call_statement_then_step_over_or_out"
+                        .into(),
+                );
+            }
             Ok(Outcome::Done(Summary {
                 labels,
-                nontrivial: model.steps_at_depth > 0,
+                nontrivial: model.steps_at_depth > 0 || model.pause_origin_steps > 0,
                 stops: nstops,
             }))
         }
@@ -1085,6 +1390,10 @@ pub struct RacyStats {
     /// Racer commands applied before the cycle thread had finished.
     pub racer_landed: u64,
     pub racer_total: u64,
+    /// Step stops whose depth clause could be decided (origin depth unambiguous), and how
+    /// many of them had a pause stop as origin.
+    pub depth_clause_checks: u64,
+    pub depth_clause_checks_from_pause: u64,
 }
 
 impl RacyStats {
@@ -1097,6 +1406,8 @@ impl RacyStats {
             pause_at_same_position: 0,
             racer_landed: 0,
             racer_total: 0,
+            depth_clause_checks: 0,
+            depth_clause_checks_from_pause: 0,
         }
     }
 }
@@ -1151,7 +1462,7 @@ pub fn run_racy_once(
         if r.noise_pause.is_some() {
             any_pause = true;
         }
-        if !matches!(r.resume, Resume::Continue) {
+        if !matches!(r.resume, Resume::Continue) || r.on_pause.is_some() {
             any_step = true;
         }
         if let BpEdit::Set(sels) = &r.bps {
@@ -1172,6 +1483,7 @@ pub fn run_racy_once(
         control.clone(),
         gate.clone(),
         shared.clone(),
+        None,
     ) {
         Ok(h) => h,
         Err(e) => return Ok(RacyOutcome::Internal(format!("cannot spawn the cycle thread: {e}"))),
@@ -1269,6 +1581,8 @@ pub fn run_racy_once(
 
     // ---- the controller
     let mut recs: Vec<StopRec> = Vec::new();
+    // the controller's answer to each stop: (command, it names the stopped thread)
+    let mut answers: Vec<Option<(Resume, bool)>> = Vec::new();
     let mut controller_resumes = 0u64;
     let mut next = 0usize;
     let mut finalised = false;
@@ -1288,6 +1602,7 @@ pub fn run_racy_once(
                     break;
                 }
                 recs.push(rec.clone());
+                answers.push(None);
                 if !racer_resumes {
                     // only this thread resumes: a second notification before our resume
                     // means two stops without a resume in between
@@ -1318,9 +1633,16 @@ pub fn run_racy_once(
                         let t = resolve_sel(w, sel, rec.thread);
                         let _ = control.apply_action(ControlAction::Pause(t));
                     }
-                    let t = r.resume.sel().and_then(|s| resolve_sel(w, s, rec.thread));
+                    let resume = r.resume_for(matches!(
+                        rec.reason,
+                        DebugStopReason::Pause | DebugStopReason::Entry
+                    ));
+                    let t = resume.sel().and_then(|s| resolve_sel(w, s, rec.thread));
                     controller_resumes += 1;
-                    let _ = control.apply_action(action_of(r.resume, t));
+                    if let Some(a) = answers.last_mut() {
+                        *a = Some((resume, t.is_none() || t == rec.thread));
+                    }
+                    let _ = control.apply_action(action_of(resume, t));
                 } else {
                     // end of script: stop the racer, then the final clear + continue
                     racer_stop.store(true, Ordering::SeqCst);
@@ -1343,6 +1665,7 @@ pub fn run_racy_once(
                             ));
                         }
                         recs.push(StopRec::of(&s));
+                        answers.push(None);
                     }
                     if verdict.is_err() {
                         break;
@@ -1406,6 +1729,54 @@ pub fn run_racy_once(
         },
     };
     check_transparency(w, &out).map_err(|e| format!("{e}\n--- last stops\n{}", render(&recs)))?;
+
+    // ---- the depth clause, where it can be decided without knowing the interleaving: only
+    // the controller issues steps (racer without resume commands), it issues them while the
+    // thread is stopped, every later command replaces the step, so a Step stop right after a
+    // step-over/out answer is the stop of that step. The origin's call depth is taken from the
+    // trace when every occurrence of its location has the same depth; the stop's depth is
+    // the smallest depth any occurrence of its location has.
+    if !racer_resumes {
+        for i in 0..recs.len().saturating_sub(1) {
+            let Some((cmd, true)) = answers.get(i).copied().flatten() else {
+                continue;
+            };
+            let what = match cmd {
+                Resume::StepOver(_) => "step-over",
+                Resume::StepOut(_) => "step-out",
+                _ => continue,
+            };
+            if recs[i + 1].reason != DebugStopReason::Step {
+                continue;
+            }
+            let (Some(a), Some(b)) = (recs[i].start, recs[i + 1].start) else {
+                continue;
+            };
+            let mut origin = w.pos.iter().filter(|p| p.start == a).map(|p| p.depth);
+            let Some(d) = origin.next() else { continue };
+            if origin.any(|x| x != d) {
+                continue;
+            }
+            let Some(stop_depth) = w.pos.iter().filter(|p| p.start == b).map(|p| p.depth).min()
+            else {
+                continue;
+            };
+            let limit = if what == "step-out" { d.saturating_sub(1) } else { d };
+            stats.depth_clause_checks += 1;
+            if matches!(recs[i].reason, DebugStopReason::Pause | DebugStopReason::Entry) {
+                stats.depth_clause_checks_from_pause += 1;
+            }
+            if stop_depth > limit {
+                return Err(format!(
+                    "{what} issued from a {:?} stop at call depth {d} ({}) stopped at call depth {stop_depth} ({})\n--- stops up to there\n{}",
+                    recs[i].reason,
+                    w.describe_start(Some(a)),
+                    w.describe_start(Some(b)),
+                    render(&recs[..=i + 1])
+                ));
+            }
+        }
+    }
 
     // ---- stops: location, order, reasons, count
     let mut last: Option<usize> = None;
